@@ -378,6 +378,14 @@ def gen_live_query(rng, now: datetime.datetime, total_us: int, max_periods: int 
 
 
 def depth_for(rng, defn: Defn, max_periods: int = 50) -> int:
-    mean_s = max(1, defn.total_us() // max(1, len(defn.periods)) // 1_000_000)
-    cap = max(1, mean_s * max_periods)
+    """a depth option that keeps the number of listed Periods around max_periods"""
+    n = max(1, len(defn.periods))
+    cap = max(1, defn.total_us() * max_periods // (n * 1_000_000))
     return max(1, min(cap, rng.choice([5, 20, 30, 60, 120, 600, 1800])))
+
+
+def live_periods_needed(defn: Defn, depth: int) -> int:
+    """upper estimate of the Period elements a live manifest with this depth needs (the service
+    refuses more than 2000 with 404, fix e70c912)"""
+    d = max(1, defn.total_us())
+    return len(defn.periods) * (3 + depth * 1_000_000 // d)
